@@ -1,6 +1,6 @@
 """C01 -- cells stay with their rows under any operation history."""
 from histprop import HistProp
-from core_props import ProbeMixin, series_payload_probes
+from core_props import ProbeMixin, series_payload_probes, getitem_dispatch_probe
 
 
 class C01(ProbeMixin, HistProp):
@@ -27,7 +27,7 @@ class C01(ProbeMixin, HistProp):
         return super().generate(rng, tier) + self.direct_probes(rng, 80 if tier == 'quick' else 800)
 
     def direct_probes(self, rng, n):
-        return series_payload_probes(rng, n, 'C01')
+        return series_payload_probes(rng, n, 'C01') + [getitem_dispatch_probe()]
 
 
 PROP = C01()
